@@ -41,6 +41,7 @@ class QuaToSM(ConvertBase):
         sms.background = qua.background_file
         sms.sample_start = qua.song_preview_time
         sms.sample_length = 10
-        sms.offset = qua.stack().offset.min()
+        # #OFFSET is where beat 0, i.e. the first tempo point, sits
+        sms.offset = float(sm.bpms.first_offset()) if len(sm.bpms) else 0.0
 
         return sms
